@@ -19,6 +19,7 @@ type FieldSpec struct {
 	PrimaryKey    bool
 	AutoIncTag    string // "", "autoIncrement", "autoIncrement:false"
 	Marker        bool   // the marker column of the oracle
+	Shadowed      bool   // generator note: an outer field of the model takes this field's column (evolve skips it)
 	Index         string // C20: "", "index", "index:name", "uniqueIndex", "index:,composite:grp" …
 	Unique        bool   // C20: unique
 	Check         string // C20: text after "check:"
@@ -157,6 +158,9 @@ type Model struct {
 	Spec   *StructSpec
 	Type   reflect.Type
 	Leaves []*Leaf
+	// Shadowed: fields of embedded structs whose column is taken by a field on a
+	// shorter path (the outer field wins): not stored, not loaded.
+	Shadowed []*Leaf
 	// KeepGroups: pointer-embedded structs (keyed by GroupKeys) the record
 	// generator never leaves nil; OnKeptGroup is called whenever that overrides a draw.
 	KeepGroups  map[string]bool
@@ -198,6 +202,22 @@ func Build(s *StructSpec) *Model {
 		}
 	}
 	walk(s, nil, nil, "", "", false)
+	// two fields mapping to one column: the shortest path (the outermost field) owns it
+	best := map[string]*Leaf{}
+	for _, l := range m.Leaves {
+		if b, ok := best[l.DBName]; !ok || len(l.Path) < len(b.Path) {
+			best[l.DBName] = l
+		}
+	}
+	var keep []*Leaf
+	for _, l := range m.Leaves {
+		if best[l.DBName] == l {
+			keep = append(keep, l)
+		} else {
+			m.Shadowed = append(m.Shadowed, l)
+		}
+	}
+	m.Leaves = keep
 	return m
 }
 
@@ -336,6 +356,12 @@ func SnakeName(goName string) string {
 func (m *Model) nameIsColumn(l *Leaf) bool {
 	for _, x := range m.Leaves {
 		if x != l && x.DBName == l.Spec.Name {
+			return true
+		}
+	}
+	// ... or another field (of an embedded struct) has the same Go name: the name does not identify one field
+	for _, x := range append(append([]*Leaf{}, m.Leaves...), m.Shadowed...) {
+		if x != l && x.Spec.Name == l.Spec.Name {
 			return true
 		}
 	}
